@@ -4,10 +4,12 @@
                    property's own enumeration (all operator trees with <= 3 / 4 operators in minimal and full spelling) on every run.
    Printer side:   exprPrec regenerated from ast/sql.go (obligation prec_agrees_checked). *)
 From Verif Require Import Base.Bytes Tree.Tree Tree.Printer Parse.ExprModel Parse.ExprFacts Parse.Spell Parse.RoundTrip GenChecks.
-From Verif Require Import Gen.PrintProg.
+From Verif Require Import Gen.PrintProg Parse.Canon.
 
-(* For EVERY canonical tree -- any depth, any mix of the 20 binary operators at their 9 levels, NOT, unary + - ~ (with the sign
-   folding of numeric literals), parenthesised sub-expressions, identifiers, parameters and literals -- the spelling that adds no
+(* For EVERY canonical tree -- any depth, any mix of the 20 binary operators at their 9 levels, IS [NOT] NULL/TRUE/FALSE, [NOT] BETWEEN,
+   [NOT] IN (list) / IN UNNEST, NOT, unary + - ~ (with the sign folding of numeric literals), field access x.f (a dotted name being one
+   Path node), subscripts x[i] and x[OFFSET(i)] / ORDINAL / SAFE_OFFSET / SAFE_ORDINAL, tuples (e1, e2, ...), parenthesised
+   sub-expressions, identifiers, parameters and literals -- the spelling that adds no
    parenthesis parses back to exactly that tree and consumes exactly its tokens.  In particular: * / || bind tighter than + -, then
    << >>, &, ^, |, then the comparison operators (non-associative: both operands one level tighter), then NOT, AND, OR; binary
    operators group to the left; an explicit parenthesis survives as a ParenExpr around exactly the parenthesised operand. *)
@@ -40,6 +42,16 @@ Print Assumptions C07_exprPrec_is_the_table.
 Theorem C07_fuel_monotone : forall f f' m ts, (f <= f')%nat -> P f m ts <> Fuel -> P f' m ts = P f m ts.
 Proof. exact P_mono. Qed.
 Print Assumptions C07_fuel_monotone.
+
+(* field access and subscripts bind tighter than every operator, and group to the left: - a.b[1].c[OFFSET(2)] * (1, x).y *)
+Example C07_postfix_binds_tightest :
+  let a := zident (bs "a") in let b := zident (bs "b") in let one := EInt 0 0 10 (bs "1") in
+  let e := EBinary (bs "*")
+             (EUnary 0 (bs "-") (EIndex 0 (ESelector (EIndex 0 (EPath [a; b]) (SExprArg one)) (zident (bs "c")))
+                                          (SKeyword 0 0 (bs "OFFSET") (EInt 0 0 10 (bs "2")))))
+             (ESelector (ETuple 0 0 [one; EIdent (zident (bs "x"))]) (zident (bs "y"))) in
+  can 12 e /\ parse_expr (spell e ++ [eof_tok]) = Ok (e, [eof_tok]).
+Proof. split; [apply canb_ok; vm_compute; reflexivity|vm_compute; reflexivity]. Qed.
 
 (* non-associativity of the comparison family: a = b = c is not accepted as one expression (the second '=' is left over) *)
 Example C07_comparison_is_non_associative :
